@@ -10,6 +10,14 @@ for d in sorted(glob.glob('/verif/seeded/C*-m*')):
   m = re.match(r'(\S+) rc=(\d+) violations_in: (.*?) harness_errors=(\d+)', line)
   if m:
     rc, harn = int(m.group(2)), m.group(3).split()
+    # engine-S lemma replays are named after the lemma, not the harness
+    fixed = []
+    for h in harn:
+      if h.startswith('replay='):
+        fixed.append('lemma:' + re.sub(r'-[0-9a-f]+\.json$', '', os.path.basename(h))[:40])
+      elif not h.startswith(('VIOLATION', 'property=')):
+        fixed.append(h)
+    harn = sorted(set(fixed))
     meta['detected_by'] = harn if rc == 1 else []
     meta['check_exit_code_with_change'] = rc
     meta['ran'] = './verify %s --tier quick with VERIF_REPO pointing at a scratch worktree of /repo HEAD carrying the change (tools/seed_matrix.sh)' % meta['property']
